@@ -344,14 +344,11 @@ func TestVerifC19S(t *testing.T) {
 		)
 
 		if r.Thorough() {
-			for _, read := range []string{"lastmap", "stateA", "policy"} {
-				cfgs = append(cfgs,
-					c19cScenario{name: "two-temps-policy", initial: "GP", next: 'P', read: read, clean: clean, writer: true},
-					c19cScenario{name: "perm+three-temps", initial: "GSPS", merged: 1, next: 'S', read: read, clean: clean},
-				)
-			}
-
 			cfgs = append(cfgs,
+				c19cScenario{name: "two-temps-policy", initial: "GP", next: 'P', read: "lastmap", clean: clean, writer: true},
+				c19cScenario{name: "two-temps-policy", initial: "GP", next: 'P', read: "policy", clean: clean, writer: true},
+				c19cScenario{name: "perm+three-temps", initial: "GSPS", merged: 1, next: 'S', read: "lastmap", clean: clean},
+				c19cScenario{name: "perm+three-temps", initial: "GSPS", merged: 1, next: 'S', read: "stateA", clean: clean},
 				c19cScenario{name: "two-temps", initial: "GS", next: 'S', read: "stateB", clean: clean, writer: true},
 				c19cScenario{name: "two-temps", initial: "GS", next: 'S', read: "statePolicy", clean: clean, writer: true},
 			)
